@@ -23,7 +23,7 @@ CONFIG = {
              'sets are judged); plus random programs where every observed/built file of every committed build '
              'gets each mutation on a saved copy; evaluations = judged rebuilds; distinct_nontrivial = distinct '
              '(role, position, operation, mode, mutation, expected re-execution?) cells observed'),
-    'exhaustive_layer': 'the 168-cell factorial core (every cell enumerated in every run, split over shards)',
+    'exhaustive_layer': 'the factorial core (384 cells: the readback role additionally x {producer METADATA|HASH-compared} x {fresh|preserved output timestamp}) (every cell enumerated in every run, split over shards)',
     'gates': ['cells', 'cell_expected_rerun', 'cell_expected_cached', 'blind_cells', 'random_mutation_rebuilds',
               'hash_touch_cells', 'metadata_content_only_cells'],
 }
@@ -35,7 +35,7 @@ VALUE_KINDS = {'result', 'tree', 'query'}
 
 def core_cells():
     cells = []
-    for role in ('input', 'integrity', 'readback'):
+    for role in ('input', 'integrity', 'readback', 'readback-Hout', 'readback-fixed', 'readback-Hout-fixed'):
         ops = ['bfcmp'] if role == 'integrity' else ['read_text', 'read_binary', 'declare_read']
         for pos in ('top', 'nested'):
             for op in ops:
@@ -46,6 +46,13 @@ def core_cells():
 
 
 def cell_program(role, pos, op, mode):
+    # readback variants: the producing build_file is itself HASH-compared (so the cache lookup
+    # hashes the OLD content before the rebuild) and/or its generator preserves the timestamp
+    # (same size, same mtime, different content: only HASH can see the rebuild)
+    hout = 'Hout' in role
+    fixed = 'fixed' in role
+    if role.startswith('readback'):
+        role = 'readback'
     funcs = {}
     if role == 'input':
         funcs['S'] = {'kind': 'sb', 'idx': 1, 'body': [['q', op, 'in', mode]]}
@@ -56,9 +63,13 @@ def cell_program(role, pos, op, mode):
         inner = [['bf', 'd/out', 'F', {'catch': False, 'cmp': mode}]]
         target = 'd/out'
     else:
-        funcs['F'] = {'kind': 'bf', 'idx': 1, 'body': [['q', 'read_binary', 'src', 'M'], ['write', '']]}
+        funcs['F'] = {'kind': 'bf', 'idx': 1, 'body': [['q', 'read_binary', 'src', 'H'],
+                                                       ['write', '', {'stamp': 'fixed'} if fixed else {}]]}
         funcs['R'] = {'kind': 'sb', 'idx': 2, 'body': [['q', op, 'd/out', mode]]}
-        inner = [['bf', 'd/out', 'F', {'catch': False}], ['sb', 'R', {'catch': False}]]
+        fo = {'catch': False}
+        if hout:
+            fo['cmp'] = 'H'
+        inner = [['bf', 'd/out', 'F', fo], ['sb', 'R', {'catch': False}]]
         target = 'src'
     if pos == 'nested':
         funcs['P'] = {'kind': 'sb', 'idx': 0, 'body': inner}
@@ -123,7 +134,7 @@ def run_cell(sh, cell):
         # METADATA cannot see a same-size same-stamp content change anywhere in the chain;
         # HASH sees content.  Which observers are blind is decided by the model; values are
         # compared only when no observer in the build used METADATA on a blindly changed file.
-        blind = mut in ('c_same_keep',)
+        blind = mut in ('c_same_keep',) or 'fixed' in role
         sr2 = w.build(program, program['roots'][0], {}, label=0)
         sh.evaluations += 1
         sh.count('cells')
@@ -180,6 +191,17 @@ def run_shard(sh):
                      query_kinds=['read_text', 'read_binary', 'declare_read', 'read_text', 'read_binary',
                                   'is_file', 'exists', 'list_dir'])
         program = gen_program(rng, cfg)
+        # some generators preserve the timestamp of their output (then only invocation sets are judged)
+        has_fixed = False
+        if rng.random() < 0.4:
+            for f in program['funcs'].values():
+                for st in f['body']:
+                    if st[0] == 'write' and rng.random() < 0.6:
+                        if len(st) < 2:
+                            st.append('')
+                        if len(st) < 3:
+                            st.append({'stamp': 'fixed'})
+                        has_fixed = True
         with Scratch('m') as sc:
             w = World(sc)
             counter = [0]
@@ -191,7 +213,7 @@ def run_shard(sh):
             ok = True
             for _ in range(rng.randint(1, 2)):
                 sr = w.build(program, body, {}, label=ri)
-                if sr.divs or not sr.committed:
+                if not sr.committed or any(d['kind'] in KINDS or not has_fixed for d in sr.divs):
                     ok = False
                     break
             if not ok:
@@ -208,7 +230,7 @@ def run_shard(sh):
                     try:
                         if apply_mut(w, env.rel(w.sb, p), mut, str(counter[0])) is None:
                             continue
-                        blind = mut == 'c_same_keep'
+                        blind = mut == 'c_same_keep' or has_fixed
                         sr2 = w.build(program, body, {}, label=ri)
                         sh.evaluations += 1
                         sh.count('random_mutation_rebuilds')
